@@ -194,6 +194,18 @@ def check(prop, tier, seed):
         # preferred to never-used ones (C17) - facts of the concurrency traces charged to these properties
         from . import conc
         thunks.append(lambda: conc.check(prop, tier, seed))
+    if prop == "C05":
+        # what a purge leaves behind inside a storage (dense view after deletions): random store histories
+        from . import store
+        thunks.append(lambda: store.run_suite("rand_store", tier, seed))
+    if prop == "C09":
+        # marking through a lazy builder is deferred work too (save/load traces)
+        from . import saveload
+        thunks.append(lambda: saveload.traces("C09", tier, seed))
+    if prop == "C02":
+        # builders dropped while a caught panic unwinds (fault traces): the deferred deletion they ask for
+        from . import fault
+        thunks.append(lambda: fault.check("C02", tier, seed)[:1])
     if prop == "C01":
         # creation during deserialisation: the save/load traces charge reused handles to C01
         from . import saveload
